@@ -35,7 +35,7 @@ _PURE_BUILTINS = {
 }
 _PURE_METHODS = {
     str: {"lower", "upper", "isupper", "islower", "join", "replace", "startswith", "endswith", "strip", "lstrip", "rstrip",
-          "split", "partition", "format", "count", "find", "encode", "title", "isdigit", "rjust", "ljust"},
+          "split", "rsplit", "partition", "rpartition", "splitlines", "format", "count", "find", "rfind", "index", "encode", "title", "isdigit", "isalpha", "rjust", "ljust", "removeprefix", "removesuffix", "capitalize", "swapcase", "zfill", "center"},
     bytes: {"lower", "upper", "decode", "replace", "startswith", "endswith", "translate", "count", "find"},
     dict: {"keys", "values", "items", "get", "copy"},
     list: {"index", "count", "copy"},
